@@ -7,9 +7,9 @@ import "pgregory.net/rapid"
 // option combinations and dangling dependencies all occur.
 func GenLooseReg(t *rapid.T, id int, hostile bool) Reg {
 	types := []int{0, 1, NumD, NumD + 1} // D0 D1 N0 N1
-	keys := []string{"", "", "a"}
+	keys := []string{"", "", "a", "a "} // ("a" and "a " are two names)
 	groups := []string{"", "", "g", "h"}
-	group := func() string { return rapid.SampledFrom([]string{"g", "g", "h"}).Draw(t, "group") } // one element type occurs in two groups
+	group := func() string { return rapid.SampledFrom([]string{"g", "g", "h", " g"}).Draw(t, "group") } // one element type occurs in two groups
 	r := Reg{ID: id, Life: rapid.IntRange(0, 2).Draw(t, "life")}
 	r.Form = rapid.SampledFrom([]int{FormPlain, FormPlain, FormPlain, FormMulti, FormOut, FormInstance, FormVoid}).Draw(t, "form")
 	pick := func() int { return rapid.SampledFrom(types).Draw(t, "type") }
@@ -19,7 +19,7 @@ func GenLooseReg(t *rapid.T, id int, hostile bool) Reg {
 		r.Outs = []OutSpec{{T: ty, Impl: ty}}
 		switch rapid.IntRange(0, 5).Draw(t, "opt") {
 		case 0:
-			r.Name = "a"
+			r.Name = rapid.SampledFrom([]string{"a", "a", "a "}).Draw(t, "name")
 		case 1:
 			r.Group = group()
 		case 2:
